@@ -165,10 +165,27 @@ def showOf {β} : OfResult β → String
   | .overflow => "overflow"
   | .panic => "panic"
 
+/-- the costs the real `smawk` run stored (bit patterns, recorded by the hook) against the costs
+    of the model's own run: the closure of `wrap_optimal_fit` must compute bit-identical doubles -/
+def costsAgree (p : Penalties) (fr : List (Frag Float)) (lw : List Float) (costs : String) : String :=
+  if costs.isEmpty || fr.length > 600 then "costs=1" else
+  let real := (costs.splitOn ",").map fun c => (c.toNat?.getD 0).toUInt64
+  match ownMinimaVec p fr lw with
+  | none => "costs=0[model panics]"
+  | some v =>
+    let mine := v.map fun e => e.2.toBits
+    -- all NaNs are one value (sign and payload of a generated NaN are not specified by IEEE 754)
+    let isNaN := fun (b : UInt64) => (b &&& 0x7ff0000000000000) == 0x7ff0000000000000 && (b &&& 0x000fffffffffffff) != 0
+    let same := fun (a b : UInt64) => a == b || (isNaN a && isNaN b)
+    if mine.length == real.length && (List.range mine.length).all (fun i => same (mine.getD i 0) (real.getD i 0)) then "costs=1"
+    else
+      let k := ((List.range mine.length).find? fun i => !same (mine.getD i 0) (real.getD i 0)).getD 0
+      s!"costs=0[column {k}: model {mine.getD k 0} real {real.getD k 0}]"
+
 /-- `of`: back-track the rows the real `smawk` returned; unless `shapeOnly`, also check the
     contract on them (shape, minimality against the model's cost closure) and that the model's
     own naive minima reach the same total cost. -/
-def handleOf (frs lws pen rows : String) (shapeOnly : Bool) : String :=
+def handleOf (frs lws pen rows : String) (shapeOnly : Bool) (costs : String := "") : String :=
   let fr := parseFrags frs
   let lw := parseFloats lws
   let p : Penalties := match parseNats pen with
@@ -181,6 +198,7 @@ def handleOf (frs lws pen rows : String) (shapeOnly : Bool) : String :=
   let sm := if fr.length > 600 then "smawk=1" else
     let own := wrapOptimalFit (fun (f : Frag Float) => f) p fr lw
     if own.2 == rws && showOf own.1 == res then "smawk=1" else s!"smawk=0[{showOf own.1}:{showNats own.2}]"
+  let sm := s!"{sm};{costsAgree p fr lw costs}"
   if shapeOnly then s!"{res};{sm}" else
   let (shape, minimal) := checkMinima p lw fr rws
   let n := fr.length
@@ -237,6 +255,8 @@ def handle (crude : Bool) (line : String) : String :=
     showOpt showGroups (wrapAlg (mkMinima p (parseMinTable mins)) a (parseWords ws) (parseNats lws))
   | ["of", frs, lws, pen, rows] => handleOf frs lws pen rows false
   | ["of", frs, lws, pen, rows, "shapeonly"] => handleOf frs lws pen rows true
+  | ["of", frs, lws, pen, rows, "costs", cs] => handleOf frs lws pen rows false cs
+  | ["of", frs, lws, pen, rows, "shapeonly", "costs", cs] => handleOf frs lws pen rows true cs
   | ["wrap", o, ii, si, t, opps, mins] =>
     let (opts, pen) := parseOpts o ii si
     let env := mkEnv crude (parseOppsTable opps)
